@@ -128,10 +128,18 @@ def gen(outdir, n, seed):
 
 
 def sh(cmd, cwd, env, timeout):
+    # own process group: a mutant whose (doc) test never terminates must not survive the timeout as an orphan
+    import signal
+    p = subprocess.Popen(cmd, cwd=cwd, env=env, stdout=subprocess.PIPE, stderr=subprocess.STDOUT, text=True, start_new_session=True)
     try:
-        r = subprocess.run(cmd, cwd=cwd, env=env, capture_output=True, text=True, timeout=timeout)
-        return r.returncode, (r.stdout + r.stderr)[-1500:]
+        out, _ = p.communicate(timeout=timeout)
+        return p.returncode, (out or '')[-1500:]
     except subprocess.TimeoutExpired:
+        try:
+            os.killpg(p.pid, signal.SIGKILL)
+        except ProcessLookupError:
+            pass
+        p.wait()
         return 124, 'timeout'
 
 
